@@ -111,14 +111,16 @@ LinesOf(ops) == IF ops = <<>> THEN {} ELSE
 
 \* ---- construction calls (API mode numbers are 0-based user modes) ---------
 ModeOk(c, m) == m \in 0..(c.nu - 1)
-BsValid(c, m1, m2, rid, cv, lq) ==
-   ModeOk(c, m1) /\ ModeOk(c, m2) /\ m1 # m2 /\ rid \in 0..2 /\ cv \in {"Rx", "H"} /\ lq \in 0..2
+\* a value argument is a literal id or a parameter reference (1000 + p); a referenced parameter's CURRENT value is validated
+ValOk(x, range, pv) == IF x >= 1000 THEN (x - 1000) \in 1..Len(pv) /\ pv[x - 1000] \in range ELSE x \in range
+BsValid(c, m1, m2, rid, cv, lq, pv) ==
+   ModeOk(c, m1) /\ ModeOk(c, m2) /\ m1 # m2 /\ ValOk(rid, 0..2, pv) /\ cv \in {"Rx", "H"} /\ ValOk(lq, 0..2, pv)
 LossTail(lines, lq) == IF lq = 0 THEN <<>> ELSE [k \in 1..Len(lines) |-> OpLoss(lines[k], lq)]
 BsApply(c, m1, m2, rid, cv, lq) ==
    [c EXCEPT !.ops = @ \o <<OpBs(m1 + 1, m2 + 1, rid, cv)>> \o LossTail(<<m1 + 1, m2 + 1>>, lq)]
-PsValid(c, m, pid, lq) == ModeOk(c, m) /\ pid \in 0..7 /\ lq \in 0..2
+PsValid(c, m, pid, lq, pv) == ModeOk(c, m) /\ (pid >= 1000 \/ pid \in 0..7) /\ ValOk(lq, 0..2, pv)
 PsApply(c, m, pid, lq) == [c EXCEPT !.ops = @ \o <<OpPs(m + 1, pid)>> \o LossTail(<<m + 1>>, lq)]
-LossValid(c, m, q) == ModeOk(c, m) /\ q \in 0..2
+LossValid(c, m, q, pv) == ModeOk(c, m) /\ ValOk(q, 0..2, pv)
 LossApply(c, m, q) == [c EXCEPT !.ops = Append(@, OpLoss(m + 1, q))]
 BarValid(c, ms) == \A k \in 1..Len(ms) : ModeOk(c, ms[k])
 BarApply(c, ms) == [c EXCEPT !.ops = Append(@, OpBar([k \in 1..Len(ms) |-> ms[k] + 1]))]
@@ -184,6 +186,18 @@ AppendSem(c2, o, M, pv) ==        \* c2 = circuit AFTER the append
 AppendAllSem(c, newOps, M, pv) ==   \* append several flat ops one after another
    FoldLeft(LAMBDA acc, o : LET c2 == [acc[1] EXCEPT !.ops = Append(@, o)] IN <<c2, AppendSem(c2, o, acc[2], pv)>>,
             <<c, M>>, newOps)[2]
+
+\* ---- copy(freeze_parameters=True): every parameter reference replaced by its current value id ----
+RECURSIVE FreezeOps(_,_)
+FreezeOps(ops, pv) == IF ops = <<>> THEN <<>> ELSE
+   LET o == Head(ops)
+       fo == IF o[1] = "grp" THEN <<"grp", <<>>, FreezeOps(o[3], pv)>>
+             ELSE IF o[1] = "bs" THEN <<"bs", o[2], <<Res(o[3][1], pv), o[3][2]>>>>
+             ELSE IF o[1] \in {"ps", "loss"} THEN <<o[1], o[2], Res(o[3], pv)>>
+             ELSE o
+   IN <<fo>> \o FreezeOps(Tail(ops), pv)
+\* the matrix a circuit reports for the CURRENT parameter values, <<>> when some value is invalid for its component
+SemOrErr(c, pv) == IF OpsCompile(c.ops, pv) THEN SemP(c, pv) ELSE <<>>
 
 \* ---- a + b ---------------------------------------------------------------
 PlusValid(a, b) == a.nu = b.nu /\ Len(a.hord) = 0 /\ Len(b.hord) = 0 /\ Len(a.anc) = 0 /\ Len(b.anc) = 0
